@@ -1,1 +1,87 @@
-// harness
+// Harnesses for src/cp437.rs: C19 (CP437 decoding against the table shipped in CPython).
+#[allow(unused_imports)]
+use crate::verif_kit::*;
+
+use crate::verif_kit::REF_CP437; // generated at check time from CPython's cp437 codec
+
+/// C19 every one of the 256 byte values decodes to the code point of the Unicode consortium
+/// CP437 mapping as shipped in CPython (table regenerated from CPython at check time).
+// @h prop=C19 tier=quick t=300 mem=4
+#[kani::proof]
+fn c19_to_char_matches_cpython_table() {
+    let b: u8 = kani::any();
+    let c = to_char(b);
+    assert_eq!(c as u32, REF_CP437[b as usize]);
+    kani::cover!(b == 0xff);
+    kani::cover!(b == 0x80);
+    kani::cover!(b < 0x80);
+}
+
+fn expect_utf8(bytes: &[u8], n: usize, out: &mut [u8; 12]) -> usize {
+    let mut len = 0;
+    let mut i = 0;
+    while i < n {
+        let cp = REF_CP437[bytes[i] as usize];
+        // independent UTF-8 encoder (code points here are < 0x10000)
+        if cp < 0x80 {
+            out[len] = cp as u8;
+            len += 1;
+        } else if cp < 0x800 {
+            out[len] = 0xC0 | (cp >> 6) as u8;
+            out[len + 1] = 0x80 | (cp & 0x3f) as u8;
+            len += 2;
+        } else {
+            out[len] = 0xE0 | (cp >> 12) as u8;
+            out[len + 1] = 0x80 | ((cp >> 6) & 0x3f) as u8;
+            out[len + 2] = 0x80 | (cp & 0x3f) as u8;
+            len += 3;
+        }
+        i += 1;
+    }
+    len
+}
+
+macro_rules! c19_vec {
+    ($name:ident, $n:expr, $unwind:expr) => {
+        #[kani::proof]
+        #[kani::unwind($unwind)]
+        fn $name() {
+            const N: usize = $n;
+            let raw: [u8; N] = kani::any();
+            let mut want = [0u8; 12];
+            let wl = expect_utf8(&raw, N, &mut want);
+            let v: Vec<u8> = raw.to_vec();
+            let s: String = v.from_cp437();
+            let sb = s.as_bytes();
+            assert_eq!(sb.len(), wl);
+            let mut i = 0;
+            while i < wl {
+                assert_eq!(sb[i], want[i]);
+                i += 1;
+            }
+            // borrowed-slice implementation agrees
+            let c = (&raw[..]).from_cp437();
+            let cb = c.as_bytes();
+            assert_eq!(cb.len(), wl);
+            let mut i = 0;
+            while i < wl {
+                assert_eq!(cb[i], want[i]);
+                i += 1;
+            }
+            kani::cover!(wl == N);
+            kani::cover!(wl == 3 * N);
+            core::mem::forget(s);
+            core::mem::forget(c);
+        }
+    };
+}
+/// C19 FromCp437 for Vec<u8> and &[u8]: for every 1-byte string the result is the UTF-8
+/// encoding (independent encoder) of the CPython-table code points, in order.
+// @h prop=C19 tier=quick t=600 mem=8 name=c19_from_cp437_len1
+c19_vec!(c19_from_cp437_len1, 1, 5);
+/// C19 FromCp437, every 2-byte string.
+// @h prop=C19 tier=quick t=900 mem=10 name=c19_from_cp437_len2
+c19_vec!(c19_from_cp437_len2, 2, 8);
+/// C19 FromCp437, every 3-byte string.
+// @h prop=C19 tier=thorough t=1800 mem=16 name=c19_from_cp437_len3
+c19_vec!(c19_from_cp437_len3, 3, 11);
